@@ -143,6 +143,9 @@ void ir___clang_call_terminate(void *p){ __CPROVER_assert(0, "TRAP:std::terminat
 #ifdef NEED_ir_abort
 void ir_abort(void){ __CPROVER_assert(0, "TRAP:abort called"); __CPROVER_assume(0); }
 #endif
+#ifdef NEED_ir___assert_fail
+void ir___assert_fail(void *e, void *f, u32 l, void *fn){ __CPROVER_assert(0, "TRAP:assert() in library code failed"); __CPROVER_assume(0); }
+#endif
 #ifdef NEED_ir___cxa_atexit
 u32 ir___cxa_atexit(void *f, void *a, void *d){ return 0; }
 #endif
